@@ -26,6 +26,13 @@ import (
 // appended or prepended to keep their identity (they only move), a replaced
 // list or dictionary is made of new settings.
 func (h *hist) merge(to, from *model.Node, pol model.Policy) {
+	h.mergeAt(to, from, pol, nil)
+}
+
+// mergeAt is merge at the place path below the receiver of the Merge call;
+// the policy of a setting is the one of the longest per-field option path that
+// is a prefix of its path (polAt, fieldopt.go), the global one otherwise.
+func (h *hist) mergeAt(to, from *model.Node, pol model.Policy, path []model.Fld) {
 	if len(from.D) > 0 && pol == model.PReplace {
 		to.D = nil
 	}
@@ -33,7 +40,8 @@ func (h *hist) merge(to, from *model.Node, pol model.Policy) {
 		if to.D == nil {
 			to.D = map[string]*model.Node{}
 		}
-		to.D[k] = h.mergeValue(to.D[k], v, pol)
+		kp := append(path[:len(path):len(path)], model.Fld{Name: k})
+		to.D[k] = h.mergeValueAt(to.D[k], v, h.polAt(kp, pol), kp)
 	}
 	switch pol {
 	case model.PReplace, model.PArrReplace:
@@ -69,7 +77,8 @@ func (h *hist) merge(to, from *model.Node, pol model.Policy) {
 	default:
 		for i, v := range from.A {
 			if i < len(to.A) {
-				to.A[i] = h.mergeValue(to.A[i], v, pol)
+				ip := append(path[:len(path):len(path)], model.Fld{Idx: i, IsI: true})
+				to.A[i] = h.mergeValueAt(to.A[i], v, h.polAt(ip, pol), ip)
 			} else {
 				to.A = append(to.A, v.Copy())
 				to.HasA = true
@@ -78,21 +87,30 @@ func (h *hist) merge(to, from *model.Node, pol model.Policy) {
 	}
 }
 
-func (h *hist) mergeValue(old, v *model.Node, pol model.Policy) *model.Node {
+func (h *hist) mergeValueAt(old, v *model.Node, pol model.Policy, path []model.Fld) *model.Node {
 	if old == nil {
 		return v.Copy()
 	}
 	switch {
 	case old.IsSub() && v.IsSub():
-		h.merge(old, v, pol)
+		h.mergeAt(old, v, pol, path)
 		h.mergedInto[old] = h.stepNo
+		if len(h.fopts) > 0 {
+			h.mergedIntoFO[old] = h.stepNo
+			if h.optionAtOrBelow(path) {
+				h.res.Ev("containers_merged_in_place_with_field_option_at_or_below", 1)
+				if len(path) > 0 && path[len(path)-1].IsI {
+					h.res.Ev("list_elements_merged_in_place_with_field_option_at_or_below", 1)
+				}
+			}
+		}
 		return old
 	case old.IsSub() && v.Kind == model.KNil:
 		h.mergedInto[old] = h.stepNo // a nil leaves a container in place
 		return old
 	case old.Kind == model.KNil && v.IsSub():
 		n := &model.Node{Kind: model.KSub, HasA: v.HasA} // (an empty list is a list)
-		h.merge(n, v, pol)
+		h.mergeAt(n, v, pol, path)
 		return n
 	case old.Kind == model.KNil && v.Kind == model.KNil:
 		n := model.Nil()
@@ -302,6 +320,8 @@ func (h *hist) staleClass(x *handle, base string) string {
 	switch {
 	case h.shiftedSince(from, rel, x.born):
 		return "child-handle-detached-by-prepend-merge"
+	case h.fieldOptMergedSince(from, rel, x.born):
+		return sigDetachedFO
 	case h.underMerged(from, rel, x.born):
 		return "child-handle-detached-by-merge"
 	case x.n.Kind != model.KSub:
